@@ -98,6 +98,11 @@ def make_case(rules, doc, perm=None, check_perm=True, expect_no_raise=True):
         c.fail("cast_data", f"cast_data {o['cast_data']!r:.300} expected {enc.enc_val(cast_doc)!r:.300}")
     # the report is always a string naming every failing path
     v = schema.validate(doc)
+    if not sensitive and not has_casts:
+        # the text itself, against the model's report (Valida.Report with the reprs of Valida.Repr)
+        impl_rep = enc.outcome(lambda: {"report": v.get_failures_string(),
+                                        "rule_reports": [t.get_failures_string() for t in v.rule_tests]})
+        c.ask(["report", terms_, enc.enc_val(doc)], impl_rep, "report")
     rep = enc.outcome(lambda: v.get_failures_string())
     if rep[0] != "ok" or not isinstance(rep[1], str):
         c.fail("report_is_string", f"get_failures_string() gave {rep!r:.100}")
@@ -138,9 +143,69 @@ def make_case(rules, doc, perm=None, check_perm=True, expect_no_raise=True):
     return c
 
 
+def rand_float(rng):
+    """finite doubles of every magnitude: random bit patterns, short decimals, neighbours of powers
+    of two and ten (where the shortest-repr interval is asymmetric), sub-normals, integers"""
+    import math
+    import struct
+    while True:
+        k = rng.randrange(7)
+        if k == 0:
+            x = struct.unpack("<d", struct.pack("<Q", rng.getrandbits(64)))[0]
+        elif k == 1:
+            x = float(f"{rng.randrange(1, 10 ** rng.randrange(1, 18))}e{rng.randrange(-330, 310)}")
+        elif k == 2:
+            x = math.ldexp(1.0, rng.randrange(-1074, 1024))
+            x = rng.choice([x, math.nextafter(x, math.inf), math.nextafter(x, 0.0)])
+        elif k == 3:
+            x = float(f"1e{rng.randrange(-323, 309)}")
+            x = rng.choice([x, math.nextafter(x, math.inf), math.nextafter(x, 0.0)])
+        elif k == 4:
+            x = rng.randrange(1, 2 ** 52) * 5e-324
+        elif k == 5:
+            x = float(rng.randrange(-10 ** rng.randrange(1, 20), 10 ** rng.randrange(1, 20)))
+        else:
+            x = round(rng.uniform(-1000, 1000), rng.randrange(0, 6))
+        if rng.random() < 0.3:
+            x = -x
+        if math.isfinite(x) and not (x == 0.0 and math.copysign(1.0, x) < 0):
+            return x
+
+
+def rand_text(rng):
+    alphabet = "ab'\"\\\n\t\r\x00\x1f\x7f %{}`<>&" + "xyz09_-"
+    s = "".join(rng.choice(alphabet) for _ in range(rng.randrange(0, 8)))
+    if rng.random() < 0.1:
+        s += rng.choice(["é", "\u2028", "\U0001f600", "\x85"])
+    return s
+
+
+def repr_case(rng, g):
+    """primitive level: `repr` of a value against Valida.Repr (the report's `Path:` / `Value:` lines
+    and the condition texts are built from it)"""
+    k = rng.randrange(4)
+    if k == 0:
+        v = rand_float(rng)
+    elif k == 1:
+        v = rand_text(rng)
+    elif k == 2:
+        v = g.doc()
+    else:
+        v = rng.choice([(), (rand_float(rng),), [rand_text(rng), None, True], {rand_text(rng): rand_float(rng), 1: (2, 3)},
+                        int, str, type(None), float, bool, list, dict, tuple, -(10 ** 30)])
+    c = Case("repr", {"value": enc.enc_val(v)})
+    c.py = f"print(repr({v!r}))"
+    c.ask(["repr", enc.enc_val(v)], enc.outcome(lambda: repr(v)), "repr")
+    c.features.add(("repr", type(v).__name__))
+    return c
+
+
 def generate(rng, n, tier, cast_p=0.0, hostile=False):
     g = Gen(rng, pct_strings=True, max_depth=3)
     cases = []
+    if cast_p == 0.0 and not hostile:
+        for _ in range(max(50, n // 4)):
+            cases.append(repr_case(rng, g))
     # the empty schema and single rules first
     cases.append(make_case([], {"a": 1}))
     while len(cases) < n:
